@@ -102,10 +102,10 @@ class MPFixedFormat(OrdinalFormat):
 
         offset = x.exp - self.expmin
         if offset > 0:
-            c = x.c >> offset
+            c = x.c << offset
             exp = x.exp - offset
         elif offset < 0:
-            c = x.c << -offset
+            c = x.c >> -offset
             exp = x.exp - offset
         else:
             c = x.c
